@@ -946,7 +946,8 @@ void race_begin() {
 }
 void race_end() {
   in_rt = true;
-  vsim::count("race_reads_checked", n_rd); vsim::count("race_writes_checked", n_wr); vsim::count("race_atomic_ops", n_at); vsim::count("race_heap_blocks_forgotten", n_forget); vsim::count("race_library_calls_checked", n_lib);
+  vsim::count("race_reads_checked", n_rd); vsim::count("race_writes_checked", n_wr); vsim::count("race_atomic_ops", n_at); vsim::count("race_library_calls_checked", n_lib);
+  (void)n_forget;   // not reported: the number of blocks freed during a run depends on what earlier runs of the process left allocated
   in_rt = false;
 }
 std::string what(uintptr_t a) {
